@@ -711,7 +711,8 @@ fn vary_children(ch: &[Node], r: &mut Rng, out: &mut Vec<Node>) {
     for n in ch {
         match n {
             Node::Elem(e) => { let mut e2 = e.clone(); e2.children.clear(); vary_children(&e.children, r, &mut e2.children); out.push(Node::Elem(e2)); }
-            Node::Text(t) if r.chance(1, 2) && t.chars().count() >= 1 => {
+            // a text with a literal CR is left alone: cutting a CR LF pair in two would change what it denotes
+            Node::Text(t) if r.chance(1, 2) && t.chars().count() >= 1 && !t.contains('\r') => {
                 // split somewhere and put a character reference or CDATA in the middle
                 let cs: Vec<char> = t.chars().collect();
                 let i = r.below(cs.len());
